@@ -95,6 +95,18 @@ func (w *w1) lostBeforeReply(topic string, part int32, inc string, from, to int)
 		if i+1 < len(h) {
 			end = h[i+1].step
 		}
+		if o.inc != "" && o.inc != inc && o.step <= to && end >= from {
+			// somebody else held the lease at some point while this request was being handled: even if the
+			// broker has it back by the time it replies, it lost it in flight (1 in 150 000 thorough runs: lost,
+			// interim owner appended and acknowledged, lease regained before the slow upload finished)
+			return true
+		}
+	}
+	for i, o := range h {
+		end := int(^uint(0) >> 1)
+		if i+1 < len(h) {
+			end = h[i+1].step
+		}
 		if o.inc == inc && o.step <= to && end >= to {
 			return false // owner at the step of the reply
 		}
